@@ -144,8 +144,9 @@ class Node:
         return Node("add", (o, self))
 
     def __iadd__(self, o):
-        if self.f != "add":     # a user's object (initial value, result of a user function); sums are the library's own
-            MUTATION_SINK.append(f"{self.f}.__iadd__")
+        # also for partial sums: they are what the user's own __add__ returned, objects of the user's type, and the
+        # standard library never adds to them in place (a type may well be more lenient there than with "+")
+        MUTATION_SINK.append(f"{self.f}.__iadd__")
         return Node("add", (self, o))
 
     def __eq__(self, o):
